@@ -243,6 +243,9 @@ func (s *scanner) skipToEndOfComment() {
 			for {
 				if ch := s.read(); ch == '/' || ch == eof {
 					return
+				} else if ch != '*' {
+					// not the end of the comment: '/' must directly follow '*'
+					break
 				}
 			}
 		} else if ch == eof {
